@@ -311,6 +311,7 @@ def set_payload(container, n: int, pm_types):
         if container.MetricValue is None:
             container.mk_metric_value()
         container.MetricValue.Samples = [Decimal(n), Decimal(n + 1)]
+        container.MetricValue.DeterminationTime = 1000.0 + n      # a waveform provider always stamps its samples
         return
     if getattr(container, 'is_metric_state', False):
         if container.MetricValue is None:
